@@ -16,3 +16,4 @@ import SpoxModel.Props.C07
 #print axioms C07.guarded_inline_step_valueless
 #print axioms C07.faithful_snoc_valueless
 #print axioms C07.generated_sampling_guarded
+#print axioms C07.guarded_nodes_valueless
